@@ -3,7 +3,7 @@
 NAME=$1; PROP=$2; shift; shift
 git -C /repo diff --quiet || { echo "/repo not clean"; exit 2; }
 git -C /repo apply /verif/seeded/$NAME/patch.diff || exit 2
-trap 'git -C /repo checkout -- . ; find /verif/replays -type f -delete' EXIT
+touch /tmp/.seedstamp; trap 'git -C /repo checkout -- . ; find /verif/replays -type f -newer /tmp/.seedstamp -delete' EXIT
 for s in "$@"; do
   echo "$NAME vs $PROP seed=$s: $(VERIF_SEED=$s /verif/run.py $PROP --no-evidence 2>&1 | grep -c '^VIOLATION') violation lines"
 done
